@@ -10,24 +10,24 @@
 // (hess2 is the STORED half-Hessian: the Hessian read back by gradient2 is 2*hess2).
 // ---------------------------------------------------------------------------------------------
 
-pub open spec fn names_union<T: Vars0>(a: &T, b: &T, r: &T) -> bool {
+spec fn names_union<T: Vars0>(a: &T, b: &T, r: &T) -> bool {
     forall|n: String| #[trigger] r.s_arc()@.contains(n) <==> (a.s_arc()@.contains(n) || b.s_arc()@.contains(n))
 }
 
 #[verifier::inline]
-pub open spec fn bin1_post<T: Vars0>(a: &T, b: &T, r: &T, f: real, fa: real, fb: real) -> bool {
+spec fn bin1_post<T: Vars0>(a: &T, b: &T, r: &T, f: real, fa: real, fb: real) -> bool {
     r.s_wf() && r.s_val() == f && names_union(a, b, r)
     && (forall|n: String| #[trigger] r.s_grad(n) == fa * a.s_grad(n) + fb * b.s_grad(n))
 }
 
 #[verifier::inline]
-pub open spec fn hess_rule(ha: real, hb: real, gan: real, gak: real, gbn: real, gbk: real,
+spec fn hess_rule(ha: real, hb: real, gan: real, gak: real, gbn: real, gbk: real,
                            fa: real, fb: real, faa: real, fab: real, fbb: real) -> real {
     fa * ha + fb * hb + (faa * gan * gak + fab * (gan * gbk + gak * gbn) + fbb * gbn * gbk) / 2real
 }
 
 #[verifier::inline]
-pub open spec fn bin2_post<T: Vars0>(a: &T, b: &T, r: &T, f: real, fa: real, fb: real, faa: real, fab: real, fbb: real) -> bool {
+spec fn bin2_post<T: Vars0>(a: &T, b: &T, r: &T, f: real, fa: real, fb: real, faa: real, fab: real, fbb: real) -> bool {
     bin1_post(a, b, r, f, fa, fb)
     && (forall|n: String, k: String| #[trigger] r.s_hess(n, k) ==
         hess_rule(a.s_hess(n, k), b.s_hess(n, k), a.s_grad(n), a.s_grad(k), b.s_grad(n), b.s_grad(k), fa, fb, faa, fab, fbb))
@@ -35,26 +35,26 @@ pub open spec fn bin2_post<T: Vars0>(a: &T, b: &T, r: &T, f: real, fa: real, fb:
 
 /// unary rules (also: binary rule with a float operand promoted to a constant, see lemma_const_promotion)
 #[verifier::inline]
-pub open spec fn un1_post<T: Vars0>(a: &T, r: &T, f: real, fa: real) -> bool {
+spec fn un1_post<T: Vars0>(a: &T, r: &T, f: real, fa: real) -> bool {
     r.s_wf() && r.s_val() == f && r.s_arc()@ =~= a.s_arc()@
     && (forall|n: String| #[trigger] r.s_grad(n) == fa * a.s_grad(n))
 }
 
 #[verifier::inline]
-pub open spec fn un2_post<T: Vars0>(a: &T, r: &T, f: real, fa: real, faa: real) -> bool {
+spec fn un2_post<T: Vars0>(a: &T, r: &T, f: real, fa: real, faa: real) -> bool {
     un1_post(a, r, f, fa)
     && (forall|n: String, k: String| #[trigger] r.s_hess(n, k) == fa * a.s_hess(n, k) + faa * a.s_grad(n) * a.s_grad(k) / 2real)
 }
 
 /// "Mixing floats and duals gives the same answer as promoting the float to a constant":
 /// a constant c has no names, zero gradient and zero Hessian; the binary rule then collapses to the unary one.
-pub open spec fn is_const<T: Vars0>(c: &T, v: real) -> bool {
+spec fn is_const<T: Vars0>(c: &T, v: real) -> bool {
     c.s_wf() && c.s_val() == v && c.s_arc()@.len() == 0
     && (forall|n: String| #[trigger] c.s_grad(n) == 0real)
     && (forall|n: String, k: String| #[trigger] c.s_hess(n, k) == 0real)
 }
 
-pub proof fn lemma_const_promotion_right<T: Vars0>(a: &T, c: &T, r: &T, f: real, fa: real, fb: real, faa: real, fab: real, fbb: real)
+pub(crate) proof fn lemma_const_promotion_right<T: Vars0>(a: &T, c: &T, r: &T, f: real, fa: real, fb: real, faa: real, fab: real, fbb: real)
     requires is_const(c, c.s_val()), bin2_post(a, c, r, f, fa, fb, faa, fab, fbb),
     ensures
         r.s_val() == f,
@@ -71,14 +71,14 @@ pub proof fn lemma_const_promotion_right<T: Vars0>(a: &T, c: &T, r: &T, f: real,
 
 // ------------------------------------------------------------------ the rule table (calculus)
 // densities
-pub open spec fn r_phi(x: real) -> real { r_exp(-(x * x) / 2real) / r_sqrt(2real * r_pi()) }
+spec fn r_phi(x: real) -> real { r_exp(-(x * x) / 2real) / r_sqrt(2real * r_pi()) }
 /// 1 / phi(x), written without a reciprocal: sqrt(2 pi) * exp(x^2 / 2)
-pub open spec fn r_inv_phi(x: real) -> real { r_sqrt(2real * r_pi()) * r_exp((x * x) / 2real) }
+spec fn r_inv_phi(x: real) -> real { r_sqrt(2real * r_pi()) * r_exp((x * x) / 2real) }
 
 // ------------------------------------------------------------------ assumed mathematical facts (tier A, oracle side)
 /// x^2, x^-1, x^-2, x^-3 for the real power function (x != 0 for the negative ones)
 #[verifier::external_body]
-pub proof fn axiom_pow_small(x: real)
+pub(crate) proof fn axiom_pow_small(x: real)
     ensures
         r_pow(x, 2real) == x * x,
         x != 0real ==> r_pow(x, -1real) == 1real / x,
@@ -87,43 +87,43 @@ pub proof fn axiom_pow_small(x: real)
 { }
 
 // ------------------------------------------------------------------ algebra (nonlinear) used by the per-rule proof hints
-pub proof fn alg_mul1(ga: real, gb: real, x: real, y: real)
+pub(crate) proof fn alg_mul1(ga: real, gb: real, x: real, y: real)
     ensures ga * y + gb * x == y * ga + x * gb,
 {
     assert(ga * y + gb * x == y * ga + x * gb) by(nonlinear_arith);
 }
 
-pub proof fn alg_mul2(ha: real, hb: real, gan: real, gak: real, gbn: real, gbk: real, x: real, y: real)
+pub(crate) proof fn alg_mul2(ha: real, hb: real, gan: real, gak: real, gbn: real, gbk: real, x: real, y: real)
     ensures ha * y + hb * x + 0.5real * (gan * gbk + gak * gbn) == hess_rule(ha, hb, gan, gak, gbn, gbk, y, x, 0real, 1real, 0real),
 {
     assert(ha * y + hb * x + 0.5real * (gan * gbk + gak * gbn)
         == y * ha + x * hb + (0real * gan * gak + 1real * (gan * gbk + gak * gbn) + 0real * gbn * gbk) / 2real) by(nonlinear_arith);
 }
 
-pub proof fn alg_assoc3(g: real, p: real, w: real)
+pub(crate) proof fn alg_assoc3(g: real, p: real, w: real)
     ensures (g * p) * w == (p * w) * g,
 {
     assert((g * p) * w == (p * w) * g) by(nonlinear_arith);
 }
 
-pub proof fn alg_half_assoc(a: real, b: real)
+pub(crate) proof fn alg_half_assoc(a: real, b: real)
     ensures (0.5real * a) * b == 0.5real * (a * b),
 {
     assert((0.5real * a) * b == 0.5real * (a * b)) by(nonlinear_arith);
 }
-pub proof fn alg_half_comm(g: real, q: real)
+pub(crate) proof fn alg_half_comm(g: real, q: real)
     ensures g * (0.5real * q) == (q * g) / 2real,
 {
     assert(g * (0.5real * q) == 0.5real * (q * g)) by(nonlinear_arith);
 }
-pub proof fn alg_assoc(a: real, b: real, c: real)
+pub(crate) proof fn alg_assoc(a: real, b: real, c: real)
     ensures a * b * c == a * (b * c),
 {
     assert(a * b * c == a * (b * c)) by(nonlinear_arith);
 }
 
 /// Dual2 power rule: h*c1 + (gn*gk)*c2 with c1 = p*w1, c2 = ((0.5*p)*(p-1))*w2
-pub proof fn alg_pow2(h: real, gn: real, gk: real, p: real, w1: real, w2: real)
+pub(crate) proof fn alg_pow2(h: real, gn: real, gk: real, p: real, w1: real, w2: real)
     ensures h * (p * w1) + (gn * gk) * (((0.5real * p) * (p - 1real)) * w2)
         == (p * w1) * h + (p * (p - 1real) * w2) * gn * gk / 2real,
 {
@@ -137,7 +137,7 @@ pub proof fn alg_pow2(h: real, gn: real, gk: real, p: real, w1: real, w2: real)
     alg_comm(h, p * w1);
 }
 
-pub proof fn alg_comm(a: real, b: real)
+pub(crate) proof fn alg_comm(a: real, b: real)
     ensures a * b == b * a,
 {
     assert(a * b == b * a) by(nonlinear_arith);
@@ -145,19 +145,19 @@ pub proof fn alg_comm(a: real, b: real)
 
 /// sqrt(2 pi) is a positive real (so dividing by it is defined)
 #[verifier::external_body]
-pub proof fn axiom_sqrt_2pi_pos()
+pub(crate) proof fn axiom_sqrt_2pi_pos()
     ensures r_sqrt(2real * r_pi()) > 0real,
 { }
 
 // ---- exp / ln / normal cdf / inverse cdf (second order): r.hess = c*(h + 0.5*g g)  etc.
-pub proof fn alg_exp2(c: real, h: real, gn: real, gk: real)
+pub(crate) proof fn alg_exp2(c: real, h: real, gn: real, gk: real)
     ensures c * (h + 0.5real * (gn * gk)) == c * h + c * gn * gk / 2real,
 {
     assert(c * (h + 0.5real * (gn * gk)) == c * h + c * gn * gk / 2real) by(nonlinear_arith);
 }
 
 /// ln: s*h - ((gn*gk)*0.5)*(s*s) with s = 1/x  ==  (1/x)*h + (-1/(x*x))*gn*gk/2
-pub proof fn alg_ln2(x: real, h: real, gn: real, gk: real)
+pub(crate) proof fn alg_ln2(x: real, h: real, gn: real, gk: real)
     requires x != 0real,
     ensures (1real / x) * h - ((gn * gk) * 0.5real) * ((1real / x) * (1real / x)) == (1real / x) * h + (-1real / (x * x)) * gn * gk / 2real,
 {
@@ -167,27 +167,27 @@ pub proof fn alg_ln2(x: real, h: real, gn: real, gk: real)
     assert(-1real / (x * x) == -t) by(nonlinear_arith) requires t == 1real / (x * x), x != 0real;
     alg_ln2_core(s, h, gn, gk, t);
 }
-pub proof fn alg_ln2_core(s: real, h: real, gn: real, gk: real, t: real)
+pub(crate) proof fn alg_ln2_core(s: real, h: real, gn: real, gk: real, t: real)
     ensures s * h - ((gn * gk) * 0.5real) * t == s * h + (-t) * gn * gk / 2real,
 {
     assert(s * h - ((gn * gk) * 0.5real) * t == s * h + (-t) * gn * gk / 2real) by(nonlinear_arith);
 }
 
 /// cdf / icdf: s*h + ((0.5*s2)*(gn*gk))  ==  s*h + s2*gn*gk/2
-pub proof fn alg_cdf2(s: real, s2: real, h: real, gn: real, gk: real)
+pub(crate) proof fn alg_cdf2(s: real, s2: real, h: real, gn: real, gk: real)
     ensures s * h + (0.5real * s2) * (gn * gk) == s * h + s2 * gn * gk / 2real,
 {
     assert(s * h + (0.5real * s2) * (gn * gk) == s * h + s2 * gn * gk / 2real) by(nonlinear_arith);
 }
 
 // ---- division
-pub proof fn alg_mul_recip(a: real, z: real)
+pub(crate) proof fn alg_mul_recip(a: real, z: real)
     requires z != 0real,
     ensures a * (1real / z) == a / z,
 {
     assert(a * (1real / z) == a / z) by(nonlinear_arith) requires z != 0real;
 }
-pub proof fn alg_neg_recip(a: real, z: real)
+pub(crate) proof fn alg_neg_recip(a: real, z: real)
     requires z != 0real,
     ensures -(a / z) == -a / z, (-1real / z) == -(1real / z),
 {
@@ -195,20 +195,20 @@ pub proof fn alg_neg_recip(a: real, z: real)
     assert((-1real / z) == -(1real / z)) by(nonlinear_arith) requires z != 0real;
 }
 /// a*((-1*t)*g) == (-(a*t))*g
-pub proof fn alg_scale_neg(a: real, t: real, g: real)
+pub(crate) proof fn alg_scale_neg(a: real, t: real, g: real)
     ensures a * ((-1real * t) * g) == (-(a * t)) * g,
 {
     assert(a * ((-1real * t) * g) == (-(a * t)) * g) by(nonlinear_arith);
 }
 /// x*((-t)*g) == (-(x*t))*g
-pub proof fn alg_scale_neg2(x: real, t: real, g: real)
+pub(crate) proof fn alg_scale_neg2(x: real, t: real, g: real)
     ensures x * ((-t) * g) == (-(x * t)) * g,
 {
     assert(x * ((-t) * g) == (-(x * t)) * g) by(nonlinear_arith);
 }
 
 /// second-order reciprocal rule scaled by a constant x:  x*p.hess  with  p = y^-1
-pub proof fn alg_div2_f64(x: real, hb: real, gbn: real, gbk: real, t2: real, t3: real)
+pub(crate) proof fn alg_div2_f64(x: real, hb: real, gbn: real, gbk: real, t2: real, t3: real)
     ensures x * ((-1real * t2) * hb + (2real * t3) * gbn * gbk / 2real) == (-(x * t2)) * hb + (2real * (x * t3)) * gbn * gbk / 2real,
 {
     alg_scale_neg(x, t2, hb);
@@ -219,18 +219,18 @@ pub proof fn alg_div2_f64(x: real, hb: real, gbn: real, gbk: real, t2: real, t3:
     assert(x * (u + m) == x * u + x * m) by(nonlinear_arith);
 }
 
-pub proof fn alg_cross(g: real, t: real, h: real)
+pub(crate) proof fn alg_cross(g: real, t: real, h: real)
     ensures g * ((-1real * t) * h) == (-t) * (g * h),
 {
     assert(g * ((-1real * t) * h) == (-t) * (g * h)) by(nonlinear_arith);
 }
-pub proof fn alg_distrib(t: real, a: real, b: real)
+pub(crate) proof fn alg_distrib(t: real, a: real, b: real)
     ensures t * (a + b) == t * a + t * b,
 {
     assert(t * (a + b) == t * a + t * b) by(nonlinear_arith);
 }
 /// quotient rule at second order, computed as a * b^-1 with t2 = y^-2, t3 = y^-3, w1 = y^-1
-pub proof fn alg_div2(x: real, w1: real, ha: real, hb: real, gan: real, gak: real, gbn: real, gbk: real, t2: real, t3: real)
+pub(crate) proof fn alg_div2(x: real, w1: real, ha: real, hb: real, gan: real, gak: real, gbn: real, gbk: real, t2: real, t3: real)
     ensures
         hess_rule(ha, (-1real * t2) * hb + (2real * t3) * gbn * gbk / 2real, gan, gak, (-1real * t2) * gbn, (-1real * t2) * gbk, w1, x, 0real, 1real, 0real)
         == hess_rule(ha, hb, gan, gak, gbn, gbk, w1, -(x * t2), 0real, -t2, 2real * (x * t3)),
